@@ -10,8 +10,13 @@ class C17:
     def main(self, tier, seed, gate=True):
         cfg, cap = make_cfg(tier, EXT_OPS)
         narrow = narrow_cfg(tier, {"add", "readd", "pull", "kill", "eof", "finish", "wait2", "tick"}, bound=10 if tier == "quick" else 12)
-        return X.search_phases(self.id, [("wide", cfg, cap), ("narrow-deep", narrow, 60 if tier == "quick" else 1500)], tier, seed, self.families,
-                               rule=RULE + "; every RPC return value and every quiescent state is compared with a sequential reference model (mc/ref/queue_ref.py); getstats/qinfo observed in every state; second phase: narrow configuration (1 channel, 2 workers, 2 jobs, two-id waits) to a deeper bound",
+        ops = {"add", "readd", "pull", "kill", "eof", "finish", "wait", "tick"}
+        falsy = narrow_cfg(tier, ops, bound=8 if tier == "quick" else 10, idnames=("", "j2"))
+        zero = narrow_cfg(tier, ops, bound=8 if tier == "quick" else 10, idnames=(0, 7))
+        return X.search_phases(self.id, [("wide", cfg, cap), ("narrow-deep", narrow, 60 if tier == "quick" else 1500),
+                                         ("empty-string-id", falsy, 30 if tier == "quick" else 600),
+                                         ("integer-zero-id", zero, 30 if tier == "quick" else 600)], tier, seed, self.families,
+                               rule=RULE + "; every RPC return value and every quiescent state is compared with a sequential reference model (mc/ref/queue_ref.py); getstats/qinfo observed in every state; second phase: narrow configuration (1 channel, 2 workers, 2 jobs, two-id waits) to a deeper bound; third/fourth phase: the narrow configuration with client-chosen ids that are falsy in Python ('' and 0)",
                                assumptions=ASSUME, gate=gate)
 
     def replay(self, record):
